@@ -18,7 +18,7 @@ fixes = subprocess.run(["git", "-C", "/repo", "log", "--format=%h %s", "--grep=^
 
 TECH = {
     "kani": "bounded model checking of the compiled crux code with Kani 0.68 / CBMC 6.11 (SAT, CaDiCaL): #[kani::proof] harnesses over symbolic inputs, unwinding assertions on, counterexamples replayed natively",
-    "mir": "SMT: optimised MIR of the real conversion functions translated to SMT-LIB2 on every run and decided by z3 (cvc5 cross-check), full machine width, counterexamples replayed natively",
+    "mir": "SMT: optimised MIR of the real functions (loop-free kernels) translated to SMT-LIB2 on every run and decided by z3 (cvc5 cross-check), full machine width, counterexamples replayed natively",
     "mixed": "SMT over MIR translated to SMT-LIB2 (z3, cvc5 cross-check) plus Kani/CBMC bounded model checking cross-checks; counterexamples replayed natively",
 }
 
